@@ -183,6 +183,10 @@ func (e *Enc) loopMods(li *loopInfo) *modSet {
 				mt := ins.Type().Underlying().(*types.Map)
 				ms.heaps[mapVHeap(mt)] = true
 				ms.heaps[mapPHeap(mt)] = true
+			case *ssa.Next:
+				if !ins.IsString {
+					ms.heaps[visitedComp(ins.Iter.(*ssa.Range))] = true
+				}
 			case *ssa.UnOp:
 				if ins.Op == token.MUL {
 					// loads of structs allocate value objects
@@ -597,7 +601,7 @@ func (e *Enc) havoc(st *State, ms *modSet, tag string) {
 	if ms.all {
 		for k := range e.compSort {
 			// the activation trace and the panic flag are local to the activation: no callee changes them
-			if !e.immutableComp(k) && !e.localGhost(k) && !strings.HasPrefix(k, "X:tr") && k != "X:panicking" && !strings.HasPrefix(k, "X:defer_") && k != "X:protected" {
+			if !e.immutableComp(k) && !e.localGhost(k) && !strings.HasPrefix(k, "X:tr") && !strings.HasPrefix(k, "X:visited_") && k != "X:panicking" && !strings.HasPrefix(k, "X:defer_") && k != "X:protected" {
 				names = append(names, k)
 			}
 		}
@@ -874,6 +878,16 @@ func (e *Enc) instr(st *State, ins ssa.Instruction) {
 		e.mapStore(st, mt, m, k, v)
 	case *ssa.Range:
 		e.vals[ins] = e.val(st, ins.X)
+		if mt, ok := ins.X.Type().Underlying().(*types.Map); ok {
+			// map iteration (language spec): every entry that is present when the iteration starts and is not removed during it is
+			// produced exactly once; ghost: the set of keys produced so far (empty now) and the key set at the start
+			ks := sortOf(mt.Key())
+			name := visitedComp(ins)
+			e.compSort[name] = arrSort(ks, SBool)
+			st.heaps[name] = Term{"((as const " + arrSort(ks, SBool) + ") false)", arrSort(ks, SBool)}
+			ps := arrSort(SInt, arrSort(ks, SBool))
+			e.rangeStart[ins] = e.def("range_keys", Select(e.comp(st, mapPHeap(mt), ps), e.val(st, ins.X).T))
+		}
 	case *ssa.Next:
 		e.next(st, ins)
 	case *ssa.Call:
@@ -1386,6 +1400,17 @@ func (e *Enc) next(st *State, ins *ssa.Next) {
 	}
 	k := e.fresh("next_k", sortOf(mt.Key()))
 	e.assume(st.reach, Imp(ok, And(e.mapPresent(st, mt, x, k), e.typeAssume(k, mt.Key(), st.hwm))))
+	if start, has := e.rangeStart[rng]; has {
+		name := visitedComp(rng)
+		vs := arrSort(sortOf(mt.Key()), SBool)
+		vis := e.comp(st, name, vs)
+		// a produced key was not produced before; when the iteration ends, every key that was present at its start and still is
+		// present has been produced
+		e.assume(st.reach, Imp(ok, Not(Select(vis, k))))
+		q := e.fresh("qk", sortOf(mt.Key()))
+		e.assume(st.reach, Imp(Not(ok), Term{"(forall ((" + q.S + " " + sortOf(mt.Key()) + ")) (=> (and (select " + start.S + " " + q.S + ") " + e.mapPresent(st, mt, x, q).S + ") (select " + vis.S + " " + q.S + ")))", SBool}))
+		st.heaps[name] = e.def("visited", Ite(ok, Store(vis, k, TTrue), vis))
+	}
 	v := e.def("next_v", e.mapValue(st, mt, x, k))
 	e.assume(st.reach, Imp(ok, e.typeAssume(v, mt.Elem(), st.hwm)))
 	e.vals[ins] = Val{Tuple: []Val{tv(ok), tv(k), tv(v)}}
@@ -1445,4 +1470,9 @@ func (e *Enc) ret(st *State, ins *ssa.Return) {
 		e.obligeNoAssume("post", anchor, clauseProps(cl, e.autoProps()), st.reach, t, cl.Text, ins.Pos())
 	}
 	e.frameAtReturn(st, ins)
+}
+
+// visitedComp: name of the ghost state component "keys produced so far" of one map iteration.
+func visitedComp(r *ssa.Range) string {
+	return fmt.Sprintf("X:visited_%d_%d", r.Block().Index, instrIndex(r))
 }
